@@ -249,8 +249,7 @@ def run(rep, tier):
     parts.sort(key=lambda x: -(x.expected or 0))
     e1.run("harness.c12", parts, per_condition_timeout=T)
     for n in range(1, N2 + 1):
-        P, cons = allsat.pairing_vars(n)
-        models, nq, dt = allsat.allsat(P, cons)
+        models, nq, dt = allsat.pairings(n)
         rep.add(transitions=nq, solver_s=dt)
         exp = len(list(all_pairings(n)))
         if len(models) != exp:
